@@ -29,7 +29,7 @@ CHECKS = {
                 text="13 theorems: similarity invariance of char_poly over any commutative ring, congruence version modulo any ideal (in particular modulo x^(N+1): coefficients of total order <= N, multi-parameter via F = K[c]), block-diagonal factorisation, Rayleigh-Schroedinger uniqueness of the eigenvalue series of a non-degenerate fully diagonalised level; tie lemmas proving the executable determinant equal to MathComp's. The bridge series-of-matrices <-> matrices-of-series to C01/C02 is not formalised (trusted).",
                 note=BASE_NOTE + "The premises of C04_charpoly_trunc are the conclusions of C01/C02 read entry-wise (bridge between the Ncring and MathComp developments trusted); Q arithmetic of the executable check (Qred/Qeq_bool) is the unproved link of the tie."),
     "C05": dict(cat="proof", tech="Coq theorem on the regenerated nonhermitian_alg (translator) + exact differential oracle; similarity clauses _partial with known finding",
-                text="C05_tie_conclusions: for every k_semeq case accepted by check_alg the three unconditional clauses hold for the implementation's tables up to order N as a theorem (truncated algebra). Theorems C05_inverse_l, C05_inverse_r, C05_gauge at full strength for every solution of the regenerated nonhermitian_alg in every BlockAlg (asymmetric masks included); C05_kept_partial / C05_eliminated_partial under the extra hypothesis that kept elements connect equal unperturbed energies - outside it the property is false on the unchanged tree (known finding C05-kept-distinct-energies, witness replayed each run). Coincidence with the Hermitian mode on Hermitian input: C05_hermitian_coincide_partial (Alg/Coincide.v, under [H_0, Sel x] = 0, i.e. the same class) + oracle.",
+                text="C05_tie_conclusions: for every k_semeq case accepted by check_alg the three unconditional clauses hold for the implementation's tables up to order N as a theorem (truncated algebra); C05_tie_similarity_partial: so do the similarity clauses when additionally nh_inputs_ok evaluates to true (kept pairs have equal energies - the class outside the known finding). Theorems C05_inverse_l, C05_inverse_r, C05_gauge at full strength for every solution of the regenerated nonhermitian_alg in every BlockAlg (asymmetric masks included); C05_kept_partial / C05_eliminated_partial under the extra hypothesis that kept elements connect equal unperturbed energies - outside it the property is false on the unchanged tree (known finding C05-kept-distinct-energies, witness replayed each run). Coincidence with the Hermitian mode on Hermitian input: C05_hermitian_coincide_partial (Alg/Coincide.v, under [H_0, Sel x] = 0, i.e. the same class) + oracle.",
                 note=ALG_NOTE),
     "C06": dict(cat="proof", tech="Coq: naturality of the semantics (any program) + equivariance by uniqueness, C16_direct, C17; tied by correspondence k_implicit (implicit vs explicit embedded), k_greens, k_projector; partial",
                 text="C06_embedding_partial / C06_outputs_correspond_partial: any structure-preserving map between BlockAlgs intertwining the scopes maps solutions of the generated programs to solutions and (Hermitian mode) the three outputs correspond; with C16_direct (solver) and C17 (projector). C06_implicit_algebra / C06_implicit_similarity / C06_corner_outputs_correspond: the corner e T e (e = diag(1,P)) of a BlockAlg is a BlockAlg with product x e y and unit e, so C01/C02 hold for the implicit computation itself, and phi x = J x J^dagger (J = diag(1,Psi_B) a partial isometry) is a least-action morphism between the explicit and the implicit corner: outputs correspond. Partial: that the concrete matrices diag(1,P), diag(1,Psi_B) satisfy the corner equations in the algebra of series of matrices is assumed (checked numerically by k_implicit); non-Hermitian correspondence by harness; KPM accuracy monitored only. Known finding C06-nh-implicit-fully-diagonalize (IndexError) replayed each run.",
